@@ -13,7 +13,8 @@
        /\ sum over pieces of esize * prod(piece sizes) = esize * prod(sizes)               -- byte lengths
      consecutive cur ranges fin
                        the byte ranges start at cur, each starts where the previous ends, lo <= hi, end at fin *)
-From TS Require Import model.Base model.Chunk proofs.ChunkProofs.
+From TS Require Import model.Base model.Chunk model.Batch proofs.ChunkProofs proofs.BatchProofs.
+From Coq Require Import Permutation.
 
 (* ------------------------------------------------------------------ torch.chunk (validated external) *)
 Theorem C16_torch_chunk_spec : forall d n,
@@ -90,6 +91,110 @@ Theorem C16_tiled_read_exact : forall (obj : list Z) rs cur fin,
 Proof. intros obj rs cur fin. exact (consecutive_concat obj rs cur fin). Qed.
 Print Assumptions C16_tiled_read_exact.
 
+(* ------------------------------------------------------------------ batch_write_requests *)
+(* Vocabulary (proofs/BatchProofs.v):
+     small T w          w is batchable and its size is strictly below T
+     good_slab T s      s <> []  /\  consecutive 0 (member ranges of s) (slab_sz s)  /\  slab_sz s < T
+     flat_out slabs     all members of all slabs in order, each tagged with its slab index
+     m_tag (k, m)       (path of m, hi - lo)            m_reloc (k, m) = (path of m, (k, lo, hi))
+   For every threshold T >= 1 and every list of write requests with non-negative sizes and pairwise distinct paths:
+     1. the pass-through requests are exactly those that are not (batchable and < T), unchanged and in order;
+     2. every slab is non-empty, its ranges are consecutive from 0 (lo <= hi), end at the slab size, and the slab
+        size is < T (for every slab, not only those with >= 2 members: a member alone is < T already);
+     3. slab indices are 0,1,2,..: only a first slab that was never used is dropped;
+     4. over all slabs, in order, the members are exactly the batchable requests below T - each exactly once, each
+        with a range exactly as long as its size;
+     5. the relocation dict has exactly one entry per member: path -> (slab, lo, hi). *)
+Theorem C16_slab_ranges_tile : forall T reqs slabs pass reloc,
+  1 <= T -> Forall (fun w => 0 <= w_size w) reqs -> NoDup (map w_path reqs) ->
+  batch_write T reqs = (slabs, pass, reloc) ->
+  pass = filter (fun w => negb (small T w)) reqs
+  /\ Forall (fun ks => good_slab T (snd ks)) slabs
+  /\ map fst slabs = zrange (blen slabs)
+  /\ map m_tag (flat_out slabs) = map (fun w => (w_path w, w_size w)) (filter (small T) reqs)
+  /\ reloc = map m_reloc (flat_out slabs).
+Proof. exact slab_ranges_tile. Qed.
+Print Assumptions C16_slab_ranges_tile.
+
+(* consecutive ranges are pairwise disjoint: of two members of one slab the earlier one ends before the later starts *)
+Theorem C16_slab_ranges_disjoint : forall T s,
+  good_slab T s -> ForallOrdPairs (fun a b => m_hi a <= m_lo b) s.
+Proof. exact slab_ranges_disjoint. Qed.
+Print Assumptions C16_slab_ranges_disjoint.
+
+(* ------------------------------------------------------------------ BatchedBufferStager.stage_buffer *)
+(* Members (lo, hi, buffer) with consecutive ranges from 0 to the slab size, each buffer of its declared length,
+   staged in ANY completion order: staging succeeds, the slab has the declared size, and the slab holds every
+   member's buffer exactly at its range. *)
+Theorem C16_slab_content : forall sz (ms order : list (Z * Z * bytes)),
+  consecutive 0 (map st_range ms) sz ->
+  (forall x, In x ms -> blen (st_buf x) = st_hi x - st_lo x) ->
+  Permutation ms order ->
+  exists slab, stage_slab sz order = Some slab /\ blen slab = sz /\
+               forall x, In x ms -> slice slab (st_lo x) (st_hi x) = st_buf x.
+Proof. exact slab_content. Qed.
+Print Assumptions C16_slab_content.
+
+(* ------------------------------------------------------------------ batch_read_requests + BatchedBufferConsumer *)
+(* For every list of read requests whose ranges satisfy 0 <= lo <= hi (any overlaps, nesting, order) and every
+   store (objects of any length, shorter than the requested ranges included):
+     (a) whatever reaches a consumer is object[lo:hi] (or the whole object) of one of its own requests;
+     (b) every whole-object request is served;
+     (c) every ranged request is served with exactly object[lo:hi], PROVIDED no other request names the same
+         location and the same range for a different consumer (forced hypothesis: sub-consumers are kept in a
+         dict keyed by range - see C16_batched_read_duplicate_refuted);
+     (d) object[lo:hi] has the full length hi - lo exactly when the object reaches hi (or the range is empty): with a
+         short object exactly the sub-consumers whose range is cut get a short buffer. *)
+Theorem C16_batched_read_exact : forall reqs store,
+  ranged_wf reqs ->
+  (forall c b, In (c, b) (exec_plan store (batch_read reqs)) ->
+     exists p rg obj, In (p, rg, c) reqs /\ lookup store p = Some obj /\ b = read_obj obj rg)
+  /\ (forall p c obj, In (p, None, c) reqs -> lookup store p = Some obj ->
+        In (c, obj) (exec_plan store (batch_read reqs)))
+  /\ (forall p lo hi c obj, In (p, Some (lo, hi), c) reqs -> lookup store p = Some obj ->
+        (forall c', In (p, Some (lo, hi), c') reqs -> c' = c) ->
+        In (c, slice obj lo hi) (exec_plan store (batch_read reqs)))
+  /\ (forall (obj : bytes) lo hi, 0 <= lo <= hi ->
+        (blen (slice obj lo hi) = hi - lo <-> (hi <= blen obj \/ lo = hi))).
+Proof.
+  intros reqs store Hwf. split; [|split; [|split]].
+  - intros c b. exact (batched_read_sound reqs store c b Hwf).
+  - intros p c obj. exact (batched_read_complete_whole reqs store p c obj).
+  - intros p lo hi c obj. exact (batched_read_complete_ranged reqs store p lo hi c obj Hwf).
+  - exact slice_short_iff.
+Qed.
+Print Assumptions C16_batched_read_exact.
+
+(* Without the proviso of (c) the statement is false: two requests for the same non-empty range of one location -
+   the first consumer never receives anything.  Replayed on the real code by the harness (not a Failure: no
+   API-level producer emits such a pair; the harness checks that on every run). *)
+Theorem C16_batched_read_duplicate_refuted :
+  exists reqs store p lo hi c obj,
+    ranged_wf reqs /\ In (p, Some (lo, hi), c) reqs /\ lookup store p = Some obj /\ lo < hi <= blen obj /\
+    forall b, ~ In (c, b) (exec_plan store (batch_read reqs)).
+Proof. exact batched_read_duplicate_refuted. Qed.
+Print Assumptions C16_batched_read_duplicate_refuted.
+
+(* ------------------------------------------------------------------ write plan + staging + store + read plan *)
+(* Entries (path, batchable, bytes the stager produces) with pairwise distinct paths; threshold T >= 1.
+   The store holds every pass-through request's bytes under its own path and, under slab_path k, slab k staged by
+   stage_slab from members of that slab in ANY completion order (slab_stored: every staged item is a member with
+   its entry's bytes; every member with a non-empty range is staged).  Each entry is read through the location and
+   byte range batch_write_requests left in it (entry_read), the read requests are taken in ANY order
+   (Permutation) and merged by batch_read_requests.  Then every entry's consumer receives exactly the bytes its
+   stager produced - whenever those are non-empty - and never anything else. *)
+Theorem C16_write_then_read_plan : forall T (ws : list went) slabs pass reloc store,
+  1 <= T -> NoDup (map e_path ws) ->
+  batch_write T (map wreq_of ws) = (slabs, pass, reloc) ->
+  (forall e, In e ws -> In (wreq_of e) pass -> lookup store (e_path e) = Some (e_buf e)) ->
+  (forall k ms, In (k, ms) slabs -> slab_stored ws store k ms) ->
+  forall rreqs, Permutation rreqs (map (fun e => entry_read reloc (e_path e)) ws) ->
+  forall e, In e ws ->
+    (e_buf e <> [] -> In (e_path e, e_buf e) (exec_plan store (batch_read rreqs)))
+    /\ (forall b, In (e_path e, b) (exec_plan store (batch_read rreqs)) -> b = e_buf e).
+Proof. exact write_then_read_plan. Qed.
+Print Assumptions C16_write_then_read_plan.
+
 (* ------------------------------------------------------------------ non-vacuity *)
 (* 3x2 tensor of 4-byte elements (24 bytes): threshold 1, = size, size + 1, and one in between *)
 Example C16_ex_chunk_t1 :
@@ -129,4 +234,41 @@ Example C16_ex_tile_limits :
   tile [2; 3] true 2 1 0 = Some [(0, 2, [1]); (2, 4, [1]); (4, 6, [1]); (6, 8, [1]); (8, 10, [1]); (10, 12, [1])]
   /\ tile [2; 3] true 2 12 0 = Some [(0, 12, [6])] /\ tile [2; 3] true 2 13 0 = Some [(0, 12, [6])]
   /\ tile [0; 3] true 2 1 5 = Some [(5, 5, [0])] /\ tile [] true 8 1 0 = Some [(0, 8, [1])].
+Proof. vm_compute. repeat split; reflexivity. Qed.
+
+(* five requests, threshold 4: two slabs, one pass-through, an empty member *)
+Example C16_ex_batch_write :
+  batch_write 4 [(0, true, 2); (1, true, 1); (2, false, 3); (3, true, 3); (4, true, 0)]
+  = ([(0, [(0, 0, 2); (1, 2, 3)]); (1, [(3, 0, 3); (4, 3, 3)])], [(2, false, 3)],
+     [(0, (0, 0, 2)); (1, (0, 2, 3)); (3, (1, 0, 3)); (4, (1, 3, 3))]).
+Proof. vm_compute. reflexivity. Qed.
+(* threshold 1: only zero-byte tensors are batched; threshold = size: passed through; size + 1: batched *)
+Example C16_ex_batch_thresholds :
+  batch_write 1 [(0, true, 2); (1, true, 0)] = ([(0, [(1, 0, 0)])], [(0, true, 2)], [(1, (0, 0, 0))])
+  /\ batch_write 3 [(0, true, 3)] = ([], [(0, true, 3)], [])
+  /\ batch_write 4 [(0, true, 3)] = ([(0, [(0, 0, 3)])], [], [(0, (0, 0, 3))])
+  /\ batch_write 4 [(0, true, 2); (1, true, 2)] = ([(0, [(0, 0, 2)]); (1, [(1, 0, 2)])], [], [(0, (0, 0, 2)); (1, (1, 0, 2))]).
+Proof. vm_compute. repeat split; reflexivity. Qed.
+Example C16_ex_stage_any_order :
+  stage_slab 3 [(2, 3, [3]); (0, 2, [1; 2])] = Some [1; 2; 3] /\ stage_slab 3 [(0, 2, [1; 2]); (2, 3, [3])] = Some [1; 2; 3]
+  /\ stage_slab 3 [(0, 2, [1])] = None.
+Proof. vm_compute. repeat split; reflexivity. Qed.
+(* overlapping and nested ranges, a short object (length 4 < 5): the cut consumers get short buffers *)
+Example C16_ex_batch_read :
+  batch_read [(7, Some (2, 5), 0); (8, None, 1); (7, Some (0, 3), 2); (7, Some (3, 3), 3)]
+  = [RWhole 8 1; RMerged 7 0 5 5 [((2, 5), 0); ((0, 3), 2); ((3, 3), 3)]]
+  /\ exec_plan [(7, [10; 11; 12; 13]); (8, [1])]
+       (batch_read [(7, Some (2, 5), 0); (8, None, 1); (7, Some (0, 3), 2); (7, Some (3, 3), 3)])
+     = [(1, [1]); (0, [12; 13]); (2, [10; 11; 12]); (3, [])].
+Proof. vm_compute. split; reflexivity. Qed.
+(* the hypotheses of C16_write_then_read_plan are satisfiable: the plan of C16_ex_batch_write, staged out of order,
+   stored, read back in reverse request order *)
+Example C16_ex_roundtrip :
+  let ws : list went := [(0, true, [1; 2]); (1, true, [3]); (2, false, [9; 9; 9]); (3, true, [4; 5; 6]); (4, true, [])] in
+  let '(slabs, pass, reloc) := batch_write 4 (map wreq_of ws) in
+  let store := [(2, [9; 9; 9]); (slab_path 0, [1; 2; 3]); (slab_path 1, [4; 5; 6])] in
+  stage_slab 3 [(2, 3, [3]); (0, 2, [1; 2])] = Some [1; 2; 3]
+  /\ stage_slab 3 [(3, 3, []); (0, 3, [4; 5; 6])] = Some [4; 5; 6]
+  /\ exec_plan store (batch_read (rev (map (fun e => entry_read reloc (e_path e)) ws)))
+     = [(2, [9; 9; 9]); (4, []); (3, [4; 5; 6]); (1, [3]); (0, [1; 2])].
 Proof. vm_compute. repeat split; reflexivity. Qed.
